@@ -40,6 +40,11 @@ def cases(ctx):
         prog, info = gv.gen_vanilla(rng, nq, rng.randrange(1, 5), use_load=use_load)
         yield {"kind": "direct", "nq": nq, "prog": prog, "debug": rng.random() < 0.3, "load": use_load,
                "loaded_two_qubit": info["loaded_two_qubit"], "script": [rng.randrange(2) for _ in range(40)]}
+    for _ in range(ctx.n(300, 30000)):
+        nq = rng.choice([2, 3, 4, 5])
+        prog, info = gv.gen_vanilla_heads(rng, nq)
+        yield {"kind": "direct", "nq": nq, "prog": prog, "debug": rng.random() < 0.3, "load": False, "heads": True,
+               "loaded_two_qubit": False, "script": [rng.randrange(2) for _ in range(40)]}
     for _ in range(ctx.n(24, 2000)):
         # long straight-line subroutines with many carbon-carbon gates (each borrows a scratch register for the electron)
         nq = rng.choice([3, 4, 5])
@@ -177,6 +182,19 @@ def transpile_and_monitor(sub, debug):
     return new_sub, None, {"branches": nbr, "expanded": bool(expanded)}
 
 
+def electron_control(ctx, ex):
+    """The NV two-qubit operation is an electron-controlled rotation of a carbon: in the run of the transpiled program every
+    controlled rotation must have virtual qubit 0 as control and another qubit as target - otherwise the decomposition
+    chosen does not reflect the qubits the registers held when it executed (even if a simulator ends in the same state)."""
+    for ev in ex.trace:
+        if ev[0].startswith("crot_"):
+            ctx.count("controlled_rotations_observed")
+            if ev[1] != 0 or ev[2] == 0:
+                return (f"the transpiled program executed {ev[0]} with virtual qubit {ev[1]} as control and {ev[2]} as target: "
+                        f"the decomposition does not reflect the qubits its registers held (the control must be the electron, id 0)")
+    return None
+
+
 class Side:
     def __init__(self, name, script, nq):
         self.ex = hc.MonitoredExecutor(name=name, node_id=0, script=rq.MeasScript(script), step_limit=20000)
@@ -260,7 +278,7 @@ def _direct(ctx, case):
     if on != "done":
         _judge(ctx, case, f"transpiled program ends with {on} {en or ''} while the vanilla program completes", key)
         return ctx.case(case, True)
-    d = compare_sides(V.ex, N.ex, names, "C15" in names)
+    d = compare_sides(V.ex, N.ex, names, "C15" in names) or electron_control(ctx, N.ex)
     if d:
         _judge(ctx, case, d, key)
     trace = [pc for (_, pc, _) in V.ex.pc_trace]
@@ -312,7 +330,7 @@ def _sdk(ctx, case):
                 ctx.count("subroutines_compared")
                 ctx.count("sdk_subroutines_compared")
             done = len(pipe.conn.subroutines)
-            d = compare_sides(pipe.ex, N, set(), False) if False else _compare_sdk(pipe.ex, N, pipe.app_id)
+            d = _compare_sdk(pipe.ex, N, pipe.app_id) or electron_control(ctx, N)
             if d:
                 ctx.fail(case, "SDK-emitted program: " + d)
                 return ctx.case(case, True)
